@@ -20,6 +20,7 @@ fn tys_for(n: usize) -> &'static str {
 /// C03: flip / swap / swap_adjacent / cofactors / from_cofactors, copying and in-place forms
 pub fn gen_c03(thorough: bool, seed: u64) -> Vec<Episode> {
     let mut eps = Vec::new();
+    eps.push(Episode { n: 0, tys: "lut", ops: vec![json!({"op": "consts"})] });
     let mut r = rng(seed, 3);
     let max_n = 14;
     for n in 1..=max_n {
@@ -162,6 +163,7 @@ fn logic_op(g: &str, f: &str, a: usize, b: usize, scratch: usize, ops: &mut Vec<
 /// C01: every syntactic form of NOT / AND / OR / XOR on both types
 pub fn gen_c01(thorough: bool, seed: u64) -> Vec<Episode> {
     let mut eps = Vec::new();
+    eps.push(Episode { n: 0, tys: "lut", ops: vec![json!({"op": "consts"})] });
     let mut r = rng(seed, 1);
     let mut forms: Vec<(&str, &str)> = Vec::new();
     for f in NOT_FORMS {
@@ -271,6 +273,7 @@ fn toggle(f: &[usize], m: usize) -> Vec<usize> {
 /// one-bit-off near misses ("predicate true on all words but one")
 pub fn gen_c06(thorough: bool, seed: u64) -> Vec<Episode> {
     let mut eps = Vec::new();
+    eps.push(Episode { n: 0, tys: "lut", ops: vec![json!({"op": "consts"})] });
     let mut r = rng(seed, 6);
     for n in 1..=12usize {
         // (table, variables to query)
@@ -366,6 +369,7 @@ fn ctor_k(op: &str, d: usize, n: usize, k: usize) -> Value {
 /// C11: named constructors
 pub fn gen_c11(thorough: bool, seed: u64) -> Vec<Episode> {
     let mut eps = Vec::new();
+    eps.push(Episode { n: 0, tys: "lut", ops: vec![json!({"op": "consts"})] });
     let mut r = rng(seed, 11);
     for n in 0..=14usize {
         let mut ops: Vec<Value> = Vec::new();
@@ -498,10 +502,51 @@ fn bdd_family(n: usize, r: &mut rand::rngs::StdRng, kind: usize) -> Vec<Vec<usiz
         // sparse / single-minterm and literal-like functions
         6 => vec![sparse_on(n, r, 2), on_from_fn(n, |m| m & 1 == 1), complement(n, &on_from_fn(n, |m| (m >> (n.max(1) - 1)) & 1 == 1)), vec![], (0..d).collect()],
         // word-periodic and "equal in every word but one"
-        _ => {
+        7 => {
             let t = structured(n, r);
             let k = t.len();
             vec![t[k - 4].clone(), t[k - 5 % k].clone(), t[k - 3].clone()]
+        }
+        // multi-word sub-tables that share their first 64-bit word but differ later, laid out
+        // A .. B .. A .. !A along the upper variables (several functions, or one larger function)
+        8 => {
+            if n < 8 {
+                return vec![random_on(n, r)];
+            }
+            let l = r.gen_range(7..n.min(10)); // leaf variables
+            let a = random_on(l, r);
+            let hi_bit = 64 + r.gen_range(0..(dom(l) - 64));
+            let b = toggle(&a, hi_bit);
+            let c = toggle(&toggle(&a, 64 + r.gen_range(0..(dom(l) - 64))), r.gen_range(0..64));
+            let na = complement(l, &a);
+            let leaves = [a, b, c, na];
+            let slots = dom(n - l);
+            let mk = |pat: &[usize]| -> Vec<usize> {
+                on_from_fn(n, |m| leaves[pat[(m >> l) % pat.len()]].binary_search(&(m & (dom(l) - 1))).is_ok())
+            };
+            if slots >= 4 && r.gen() {
+                vec![mk(&[0, 1, 0, 3]), mk(&[1, 0, 2, 1])]
+            } else {
+                vec![mk(&[0, 1]), mk(&[0, 3]), mk(&[1, 2])]
+            }
+        }
+        // x_a & g with a at or above the word boundary and g over variables on both sides of it
+        _ => {
+            if n < 8 {
+                return vec![random_on(n, r)];
+            }
+            let a = r.gen_range(6..n - 1);
+            let b = r.gen_range(a + 1..n);
+            let c = r.gen_range(0..6);
+            let kind = r.gen_range(0..3);
+            let f = on_from_fn(n, |m| {
+                let xa = (m >> a) & 1 == 1;
+                let xb = (m >> b) & 1 == 1;
+                let xc = (m >> c) & 1 == 1;
+                xa && match kind { 0 => xb ^ xc, 1 => xb || xc, _ => xb && !xc }
+            });
+            let g = on_from_fn(n, |m| ((m >> a) & 1 == 1) && ((m >> c) & 1 == 1));
+            vec![f, g]
         }
     }
 }
@@ -514,8 +559,9 @@ pub fn gen_c07(thorough: bool, seed: u64) -> Vec<Episode> {
         let rounds = if thorough { if n >= 10 { 12 } else { 30 } } else if n >= 10 { 2 } else if n >= 8 { 4 } else { 8 };
         // the empty list
         eps.push(Episode { n, tys: tys_for(n), ops: vec![json!({"op": "bdd", "xs": []})] });
-        for round in 0..rounds {
-            let kind = round % 8;
+        let extra = if n >= 8 { if thorough { 12 } else { 4 } } else { 0 };
+        for round in 0..rounds + extra {
+            let kind = if round >= rounds { 8 + (round - rounds) % 2 } else { round % 10 };
             let mut fam = bdd_family(n, &mut r, kind);
             fam.truncate(4);
             let mut ops: Vec<Value> = Vec::new();
@@ -586,11 +632,17 @@ pub fn gen_c08(thorough: bool, seed: u64) -> Vec<Episode> {
         let npairs = if thorough { 40 } else if n >= 11 { 6 } else { 12 };
         for p in 0..npairs {
             let a = tables[r.gen_range(0..tables.len())].clone();
-            let b = match p % 4 {
+            let b = match p % 6 {
                 // differ in exactly one assignment (often in a low word while high words are equal, and vice versa)
                 0 => toggle(&a, r.gen_range(0..dom(n))),
                 1 => toggle(&toggle(&a, 0), dom(n) - 1),
                 2 => tables[r.gen_range(0..tables.len())].clone(),
+                // equal in the upper words, independent below (several low words differ, in both directions)
+                3 | 4 => {
+                    let cut = if dom(n) > 128 { 64 * r.gen_range(2..=dom(n) / 64 - 1) } else { dom(n) / 2 };
+                    let low = random_on(n, &mut r);
+                    on_from_fn(n, |m| if m >= cut { a.binary_search(&m).is_ok() } else { low.binary_search(&m).is_ok() })
+                }
                 _ => random_on(n, &mut r),
             };
             let c = if p % 2 == 0 { toggle(&b, r.gen_range(0..dom(n))) } else { random_on(n, &mut r) };
@@ -1302,7 +1354,7 @@ pub fn gen_c10b(thorough: bool, seed: u64) -> Vec<Episode> {
 // ---------------------------------------------------------------------------------------------
 // C04 / C05
 
-fn canon_episode(n: usize, f: &[usize], kinds: &[&str], feed_back: bool) -> Episode {
+fn canon_episode(n: usize, f: &[usize], kinds: &[&str], feed_back: bool, variants: bool) -> Episode {
     let mut ops = vec![load(0, n, f)];
     for (k, kind) in kinds.iter().enumerate() {
         let d = 1 + k;
@@ -1310,6 +1362,19 @@ fn canon_episode(n: usize, f: &[usize], kinds: &[&str], feed_back: bool) -> Epis
         if feed_back {
             // the representative is itself an input that is already canonical
             ops.push(json!({"op": "canon", "kind": kind, "a": d, "d": 4 + k}));
+            // ... and a pure input permutation / pure complementation of it is an input whose best
+            // table is reached exactly at a swap boundary / by flips alone (setup: library swap, flip, not)
+            if variants && n >= 2 && *kind != "n" {
+                let i = (f.len() + k) % (n - 1);
+                ops.push(json!({"op": "swap", "f": "copy", "a": d, "d": 7, "i": i, "j": n - 1}));
+                ops.push(json!({"op": "canon", "kind": kind, "a": 7, "d": 4 + k}));
+            }
+            if variants && n >= 1 && *kind != "p" {
+                ops.push(json!({"op": "flip", "f": "copy", "a": d, "d": 7, "i": f.len() % n}));
+                ops.push(json!({"op": "canon", "kind": kind, "a": 7, "d": 4 + k}));
+                ops.push(json!({"op": "logic", "g": "not", "f": "op_ref", "a": d, "b": d, "d": 7}));
+                ops.push(json!({"op": "canon", "kind": kind, "a": 7, "d": 4 + k}));
+            }
         }
     }
     Episode { n, tys: tys_for(n), ops }
@@ -1338,7 +1403,7 @@ pub fn gen_canon(thorough: bool, seed: u64, c05: bool) -> Vec<Episode> {
                 continue; // C04 at n = 4: a quarter of the functions per seed (16384), exact minimum each
             }
             let on: Vec<usize> = (0..dom(n)).filter(|&m| (f >> m) & 1 == 1).collect();
-            eps.push(canon_episode(n, &on, &all_kinds, n <= 3 || c05));
+            eps.push(canon_episode(n, &on, &all_kinds, n <= 3 || c05, c05));
         }
     }
     let scale = |q: usize, t: usize| if thorough { t } else { q };
@@ -1371,7 +1436,7 @@ pub fn gen_canon(thorough: bool, seed: u64, c05: bool) -> Vec<Episode> {
                     _ => sparse_on(n, &mut r, 1 + k % 5),
                 };
                 let heavy = kind == "npn" && n >= 6;
-                eps.push(canon_episode(n, &f, &[kind], !heavy));
+                eps.push(canon_episode(n, &f, &[kind], !heavy, c05 || (k % 8 == 0 && n <= 5)));
             }
         }
     }
